@@ -484,6 +484,9 @@ def execute(sched, scratch, seed=None, i=None):
             env = {k: v.replace('<ROOT>', os.path.realpath(root)) for k, v in (step.get('env') or {}).items()}
             plan = {'tty': dict(step['tty'], answers=list(step['tty'].get('answers') or [])), 'net': 'down',
                     'today': '2025-06-15', 'env': env, 'fault': step.get('fault'), 'reads': step.get('reads')}
+            if (step.get('fault') or {}).get('kind') == 'stdout-broken':
+                plan['stdout_fault'] = {'after_effect': step['fault'].get('after_effect', -1), 'stream': step['fault'].get('stream', 'stdout')}
+                plan['fault'] = None
             argv = [a.replace('<ROOT>', os.path.realpath(root)) for a in step['argv']]
             r = proc.run_cli(root, argv, plan, cwd=step['cwd'], ctl_parent=ctlp)
             post = util.snapshot(root)
@@ -523,10 +526,12 @@ def execute(sched, scratch, seed=None, i=None):
                 for k_, e_ in enumerate(r.effects):
                     en = {'open': 'EACCES', 'write': 'ENOSPC', 'close': 'EIO', 'rename': 'EACCES', 'mkdir': 'ENOSPC'}.get(e_['k'], 'EIO')
                     for fault in ({'kind': 'oserror', 'at': k_, 'errno': en, 'cut': 'half'}, {'kind': 'crash', 'at': k_, 'cut': 'half'},
-                                  {'kind': 'oserror-from', 'at': k_, 'errno': 'ENOSPC'}):
+                                  {'kind': 'oserror-from', 'at': k_, 'errno': 'ENOSPC'}, {'kind': 'stdout-broken', 'after_effect': k_, 'stream': 'stdout'}):
                         util.restore(root, pre)
-                        r2 = proc.run_cli(root, argv, dict(plan, fault=fault, tty=dict(step['tty'], answers=list(step['tty'].get('answers') or []))),
-                                          cwd=step['cwd'], ctl_parent=ctlp)
+                        p2 = dict(plan, fault=fault, tty=dict(step['tty'], answers=list(step['tty'].get('answers') or [])))
+                        if fault['kind'] == 'stdout-broken':
+                            p2.update(fault=None, stdout_fault={'after_effect': k_, 'stream': 'stdout'})
+                        r2 = proc.run_cli(root, argv, p2, cwd=step['cwd'], ctl_parent=ctlp)
                         post2 = util.snapshot(root)
                         bad2 = util.audit(pre, post2, r2.events)
                         if bad2:
@@ -566,7 +571,10 @@ def add_faults(rng, sched):
         j = rng.choice(writers)      # faults belong inside operations that have in-flight state: the report writers
     s = sched['steps'][j]
     r = rng.random()
-    if r < 0.5:
+    if r < 0.15:
+        # whoever reads the output goes away (`tally discover | head`, a closed terminal): from some point on every print fails
+        s['fault'] = {'kind': 'stdout-broken', 'after_effect': rng.choice([-1, -1, 0, 1, 3]), 'stream': rng.choice(['stdout', 'both'])}
+    elif r < 0.5:
         s['fault'] = {'kind': rng.choice(['crash', 'crash', 'oserror', 'kbi']), 'at': rng.randint(0, 4),
                       'cut': rng.choice(['none', 'half', 'all']), 'errno': rng.choice(['ENOSPC', 'EACCES', 'EIO'])}
     else:
